@@ -55,7 +55,7 @@ def run(tier, seed):
         img = np.array([[i * 100 + j for j in range(H)] for i in range(W)])
         # pixel types a detector delivers: counts beyond 2^24 and the 2^32-1 mask value (no float32 holds them), 16-bit frames, float64
         # corrections with all 53 bits, boolean masks; the transformed image must carry the same VALUES (the type is not part of the property)
-        kind_ = (W * 8 + H + len(f)) % 6
+        kind_ = (W * 8 + H + len(f)) % 8
         if kind_ == 1:
             img = img.astype(np.int64) + (1 << 40) + 1
         elif kind_ == 2:
@@ -66,6 +66,10 @@ def run(tier, seed):
             img = img.astype(np.uint16)
         elif kind_ == 5:
             img = (img % 3 == 0)
+        elif kind_ == 6:
+            img = (img.astype(np.int64) * 257 + 1).astype(">u2")        # big-endian 16-bit frames, as many detector formats store them
+        elif kind_ == 7:
+            img = (img.astype(np.float64) / 7.0).astype(">f8")
         desc = {"function": "trans_orientation" if f == "trans" else "image_flipping", "o": list(o), "W": W, "H": H, "dtype": str(img.dtype)}
         v.case(key[:4], nontrivial=(W * H > 1), sample=desc if (W, H, f) == (3, 5, "trans") and len(v.samples) < 4 else None)
         try:
